@@ -139,6 +139,10 @@ vox_read_block (SF_PRIVATE *psf, IMA_OKI_ADPCM *pvox, short *ptr, int len)
 
 		ima_oki_adpcm_decode_block (pvox) ;
 
+		/* An odd request decodes one sample more than was asked for; never hand it to the caller. */
+		if (pvox->pcm_count > len - indx)
+			pvox->pcm_count = len - indx ;
+
 		memcpy (&(ptr [indx]), pvox->pcm, pvox->pcm_count * sizeof (short)) ;
 		indx += pvox->pcm_count ;
 		} ;
